@@ -61,6 +61,11 @@ ASSUMPTIONS = {
         'surface (its height post-condition is not part of the statement)',
         'after insertion in the middle / removal only the stop and primary-'
         'wavelength clauses are checked',
+        'injected faults: calls the library rejects (unknown surface type, '
+        'glass, pickup attribute, solve / variable type, wavelength unit, '
+        'aperture type, index beyond the end); a rejected call must leave '
+        'the observable state - prescription, fields, wavelengths, number of '
+        'pickups and solves - unchanged',
     ],
     'C13': [
         'the same numpy call on same-shaped input is bit-reproducible within '
@@ -118,8 +123,14 @@ ASSUMPTIONS = {
         'produces exactly that scaled lens" is decided; lens class: planes '
         'and conics, angular fields, no decentres, no aspheric coefficients',
         'model: radii, thicknesses, EPD value and physical aperture radii '
-        'times s; everything else unchanged; radii compared exactly, '
-        'positions to 1e-9 relative',
+        'times s; everything else (fields, indices, conics, tilts) '
+        'unchanged; radii compared exactly, positions to 1e-9 relative',
+        'behaviour: after each scale_system the lens is traced against a '
+        'twin built from scratch with the scaled prescription; tolerance = '
+        '10 x the response of the twin to 1e-12 x lens-size jitter of every '
+        'gap + 1e-6 relative; only for lenses of sane proportions (size, '
+        'radii and focal length within 1e-4..1e6 of each other) and batches '
+        'in which every ray survives',
     ],
 }
 
